@@ -361,18 +361,19 @@ def _Solve_Axb(
     elif solver == SolverType.scipy:
         x = sla.spsolve(A, b)
 
-    elif solver == SolverType.cg:
-        x, output = sla.cg(A, b.toarray(), x0, maxiter=None)
-
-    elif solver == SolverType.bicg:
-        x, output = sla.bicg(A, b.toarray(), x0, maxiter=None)
-
-    elif solver == SolverType.gmres:
-        x, output = sla.gmres(A, b.toarray(), x0, maxiter=None)
-
-    elif solver == "lgmres":
-        # lgmres does not accept maxiter=None (its default is an integer)
-        x, output = sla.lgmres(A, b.toarray(), x0)
+    elif solver in [SolverType.cg, SolverType.bicg, SolverType.gmres, "lgmres"]:
+        if solver == SolverType.cg:
+            x, output = sla.cg(A, b.toarray(), x0, maxiter=None)
+        elif solver == SolverType.bicg:
+            x, output = sla.bicg(A, b.toarray(), x0, maxiter=None)
+        elif solver == SolverType.gmres:
+            x, output = sla.gmres(A, b.toarray(), x0, maxiter=None)
+        else:
+            # lgmres does not accept maxiter=None (its default is an integer)
+            x, output = sla.lgmres(A, b.toarray(), x0)
+        # 0: converged, > 0: iteration cap reached without convergence, < 0: illegal input or breakdown
+        if output != 0:
+            raise Exception(f"{solver} did not converge (info = {output}).")
 
     elif solver == SolverType.lsq_linear:
         # constrained minimization
